@@ -1,6 +1,10 @@
 package main
 
 import (
+	"nvharness/mock"
+	netty "github.com/go-netty/go-netty"
+	"time"
+	"context"
 	"runtime"
 	"sync"
 	"sync/atomic"
@@ -102,6 +106,50 @@ func runC19(seed int64, count int, replay string) {
 		wg.Wait()
 		emit("C19 conc 8 %d %d %d", gets, double, short)
 	}
+	// the pool as the channel uses it: a queued channel clones payloads into pool buffers and its sender gives a
+	// whole batch back after one gathering write; afterwards the default pool must hand out distinct buffers of
+	// sufficient capacity again
+	for round := 0; round < 4; round++ {
+		emit("#case channel-recycle-%d", round)
+		pl := netty.NewPipeline()
+		tr := mock.NewTransport()
+		dexec := &deferExec{}
+		ch := netty.NewAsyncWriteChannel(16, false)(int64(round), context.Background(), pl, tr, dexec)
+		netty.NvAttach(pl, ch)
+		sizes := [][]int{{3000, 500}, {500, 3000, 100}, {1500, 1500, 70000, 10}, {100, 100}}[round]
+		for _, n := range sizes {
+			ch.Write1(bytes.Repeat([]byte{byte(n)}, n))
+		}
+		dexec.runAll() // one batch: Writev, then the batch is recycled
+		deadline := time.Now().Add(2 * time.Second)
+		for (netty.NvQueueLen(ch) > 0 || netty.NvSenderRunning(ch)) && time.Now().Before(deadline) {
+			time.Sleep(50 * time.Microsecond)
+		}
+		var got []*[]byte
+		short, dup := 0, 0
+		seen := map[unsafe.Pointer]bool{}
+		for k := 0; k < 3; k++ {
+			for _, n := range sizes {
+				b := pbytes.Get(n)
+				if cap(*b) < n {
+					short++
+				}
+				if cap(*b) > 0 {
+					ptr := unsafe.Pointer(unsafe.SliceData((*b)[:cap(*b)]))
+					if seen[ptr] {
+						dup++
+					}
+					seen[ptr] = true
+				}
+				got = append(got, b)
+			}
+		}
+		for _, b := range got {
+			pbytes.Put(b)
+		}
+		emit("C19 conc 1 %d %d %d", len(got), dup, short)
+		ch.Close(nil)
+	}
 	for h := 0; h < count; h++ {
 		max := c19Maxes[rng.Intn(len(c19Maxes))]
 		nops := 10 + rng.Intn(60)
@@ -172,6 +220,22 @@ func runC19(seed int64, count int, replay string) {
 					v := p.Get(sz)
 					id, fresh := idOf(v)
 					emit("C19 get %d - %d %d %d", sz, id, cap(*v), fresh)
+					// exclusive ownership of the whole capacity: no byte of it belongs to another buffer that is held
+					if cap(*v) > 0 {
+						lo := uintptr(unsafe.Pointer(unsafe.SliceData((*v)[:cap(*v)])))
+						hi := lo + uintptr(cap(*v))
+						for _, o := range held {
+							if cap(*o) == 0 {
+								continue
+							}
+							olo := uintptr(unsafe.Pointer(unsafe.SliceData((*o)[:cap(*o)])))
+							ohi := olo + uintptr(cap(*o))
+							if lo < ohi && olo < hi && lo != olo {
+								oid, _ := idOf(o)
+								emit("C19 overlap %d %d %d %d", id, cap(*v), oid, cap(*o))
+							}
+						}
+					}
 					held = append(held, v)
 				case r < 8 && len(held) > 0:
 					k := rng.Intn(len(held))
